@@ -2,6 +2,7 @@
    Property theorems only; they assemble the per-construct results. Partial: see the note. *)
 From Coq Require Import List String ZArith NArith Bool.
 From Verif Require Import Base Grid Select SelectProofs Shard Exec Compose StreamWF Agg AggProofs.
+From Verif Require Bin BinProofs EndToEnd.
 Import ListNotations.
 Open Scope Z_scope.
 
@@ -29,11 +30,58 @@ Theorem C01_result_points_on_grid : forall B w n s i,
 Proof. exact exec_points_on_grid. Qed.
 Print Assumptions C01_result_points_on_grid.
 
+(* End to end for the query shape  L op R  over two vector selectors (any
+   arithmetic or comparison operator on value bits, on/ignoring, group_left /
+   group_right with included labels, bool): for every shard count, batch size
+   and window the engine (sharded, batched selectors feeding the join with its
+   reused table) produces one vector of samples per grid step, and at every
+   step at which the reference engine's VectorBinop succeeds on the reference
+   instant selections the engine's samples are exactly the reference's.
+   Hypothesis: distinct signatures among the "one" side's series (F20 otherwise). *)
+Theorem C01_binary_over_selectors :
+  forall (op : Z -> Z -> Z * bool) (b2v : bool -> Z) (on : bool) (ml incl : list N) (c : Bin.card)
+         (return_bool op_drops_name : bool) (llabels rlabels : list labels) (lsers rsers : list (list sample))
+         (loff roff : Z) (cf : cfg) (w : window),
+  (0 < c_shards cf)%nat -> (0 < c_batch cf)%nat -> 0 <= c_lookback cf -> wf_window w ->
+  Forall sorted_ts lsers -> Forall sorted_ts rsers ->
+  List.length llabels = List.length lsers -> List.length rlabels = List.length rsers ->
+  Bin.noT < w_start w ->
+  BinProofs.one_side_unique on ml (BinProofs.one_side_series c llabels rlabels) ->
+  (Bin.is_one_to_one c = true -> incl = []) ->
+  exists outs,
+    EndToEnd.engine_binary op b2v on ml incl c return_bool op_drops_name llabels rlabels lsers rsers loff roff cf w = inl outs /\
+    map fst outs = grid w /\
+    forall t out, In (t, out) outs ->
+      forall ref_out,
+        EndToEnd.reference_binary op b2v on ml incl c return_bool op_drops_name llabels rlabels lsers rsers loff roff (c_lookback cf) t = Some ref_out ->
+        forall m v, In (m, v) out <-> In (m, v) ref_out.
+Proof. exact EndToEnd.binary_over_selectors_matches_reference. Qed.
+Print Assumptions C01_binary_over_selectors.
+
+(* non-vacuity: foo{a,b} * on (a) group_left (c) bar{a,c} with two shards, batches of two,
+   four steps, lookback 100; 0 = __name__, 1 = a, 2 = b, 3 = c *)
+Example C01_binary_example :
+  let mul (x y : Z) := ((x * y)%Z, true) in
+  let b2z (b : bool) := if b then 1 else 0 in
+  let llabels := [[(0, 10); (1, 20); (2, 31)]; [(0, 10); (1, 20); (2, 32)]; [(0, 10); (1, 21); (2, 31)]]%N in
+  let rlabels := [[(0, 11); (1, 20); (3, 40)]; [(0, 11); (1, 22); (3, 41)]]%N in
+  let lsers := [[mkS 950 (Some 2); mkS 1040 (Some 3)]; [mkS 990 (Some 5)]; [mkS 1000 (Some 7)]] in
+  let rsers := [[mkS 980 (Some 10); mkS 1050 None]; [mkS 1000 (Some 1)]] in
+  EndToEnd.engine_binary mul b2z true [1%N] [3%N] Bin.ManyToOne false true llabels rlabels lsers rsers 0 0
+                         (mkCfg 2 2 100) (mkW 1000 1090 30) =
+  inl [(1000, [([(1, 20); (2, 31); (3, 40)]%N, 20); ([(1, 20); (2, 32); (3, 40)]%N, 50)]);
+       (1030, [([(1, 20); (2, 31); (3, 40)]%N, 20); ([(1, 20); (2, 32); (3, 40)]%N, 50)]);
+       (1060, []); (1090, [])] /\
+  EndToEnd.reference_binary mul b2z true [1%N] [3%N] Bin.ManyToOne false true llabels rlabels lsers rsers 0 0 100 1030 =
+  Some [([(1, 20); (2, 31); (3, 40)]%N, 20); ([(1, 20); (2, 32); (3, 40)]%N, 50)].
+Proof. cbv zeta. split; vm_compute; reflexivity. Qed.
+
 (* PARTIAL. The full statement (value equality with the reference for every
    native construct) is false of the pinned engine (known findings F02, F20,
    F22a-c, F30) and its floating-point kernels are not modelled. Proved: the
    evaluation skeleton (step locality, grid coverage, sharding/batching
    independence), the selection semantics of the leaves, the grouping and reset
-   logic of aggregations (C04), hints (C16), optimizer soundness (C09). The
+   logic of aggregations (C04), hints (C16), optimizer soundness (C09), and, end to
+   end, the query shape L op R over selectors (C01_binary_over_selectors). The
    remaining obligation - per-construct value equality - is decided by the
    reference oracle on the full native vocabulary. *)
